@@ -70,7 +70,16 @@ def _make(case):
         c.add_variable('X', data)
         c.add_variable('Y', other)
     else:
-        M = type('M', (fsic.BaseModel,), {'ENDOGENOUS': ['X'], 'EXOGENOUS': ['Y'], 'NAMES': ['X', 'Y'], 'CHECK': ['X']})
+        bases = (fsic.BaseModel,)
+        extra = {}
+        if case['cls'] == 'BMA':
+            from fsic.extensions import AliasMixin
+            bases = (AliasMixin, fsic.BaseModel)
+            extra = {'ALIASES': {'GDP': 'X'}}
+        elif case['cls'] == 'BMP':
+            from fsic.extensions.model import PandasIndexFeaturesMixin
+            bases = (PandasIndexFeaturesMixin, fsic.BaseModel)
+        M = type('M', bases, dict({'ENDOGENOUS': ['X'], 'EXOGENOUS': ['Y'], 'NAMES': ['X', 'Y'], 'CHECK': ['X']}, **extra))
         c = M(first, X=data, Y=other)
     if case.get('span0'):
         for p in list(first):
@@ -134,8 +143,86 @@ def _operand(w):
     return w['scalar'] if 'scalar' in w else list(w['seq'])
 
 
+TYPED = {'int': ('int64', [10, 11, 12, 13, 14, 15, 16, 17, 18, 19]), 'str': ('<U2', ['a0', 'a1', 'a2', 'a3', 'a4', 'a5', 'a6', 'a7', 'a8', 'a9']),
+         'bool': ('bool', [True, False, True, True, False, False, True, False, True, True]), 'f32': ('float32', [10.0, 11.0, 12.0, 13.0, 14.0, 15.0, 16.0, 17.0, 18.0, 19.0])}
+
+
+def impl_typed(case):
+    """A series of another dtype; a value that may need NumPy's cast is written through one path and read back through every path.
+    Oracle-only (the Coq model moves data, it does not cast): obs carries the reads and NumPy's own cast of the value as reference."""
+    import numpy as np
+    import fsic
+    span = lc.build_span(case['span'])
+    n = len(span)
+    op = case['op']
+    dt, vals = TYPED[op['dtype']]
+    c = fsic.core.containers.VectorContainer(span)
+    c.add_variable('X', np.array(vals[:n], dtype=dt))
+    before = lc.clist_vals(c.X)
+    v = op['v']
+    try:
+        ref = ['ret', lc.cval(np.array([v]).astype(dt)[0])]
+    except Exception as e:
+        ref = ['raise', type(e).__name__]
+
+    def write():
+        path = op['path']
+        if path == 'label':
+            c['X', lc.dec_label(op['at'])] = v
+        elif path == 'slice':
+            c['X', lc.dec_label(op['at']):lc.dec_label(op['at'])] = v
+        elif path == 'pos':
+            c.X[op['at']] = v
+        elif path == 'keypos':
+            c['X'][op['at']] = v
+        elif path == 'whole':
+            c.X = v
+        else:
+            raise AssertionError(path)
+    r = _res(write)
+    obs = {'out': r if r[0] == 'raise' else ['ret', 'none'], 'ref': ref, 'before': before, 'dtype': str(c.X.dtype),
+           'attr': lc.clist_vals(c.X), 'key': lc.clist_vals(c['X']),
+           'bypos': [_res(lambda i=i: c.X[i]) for i in range(n)], 'bylabel': [_res(lambda p=p: c['X', p]) for p in span],
+           'fullslice': _res(lambda: c['X', :]), 'span_ok': True, 'after': [], 'other': [], 'same_array': True}
+    return obs
+
+
+def oracle_typed(case, obs, bad):
+    op = case['op']
+    n = lc.span_len(case['span'])
+    stored = obs['key']
+    if obs['dtype'] != TYPED[op['dtype']][0]:
+        bad('typed', 'dtype-changed', 'the series changed dtype: %s' % obs['dtype'])
+    if obs['attr'] != stored or obs['bypos'] != [['ret', 'scalar', x] for x in stored] or obs['bylabel'] != [['ret', 'scalar', x] for x in stored] \
+            or (n > 0 and obs['fullslice'] != ['ret', 'arr', stored]):
+        bad('typed', 'read-paths-disagree', 'attribute / key / position / label / slice reads differ: %s %s %s %s %s' % (obs['attr'], stored, obs['bypos'], obs['bylabel'], obs['fullslice']))
+    if op['path'] == 'whole':
+        targets = list(range(n))
+    elif op['path'] in ('pos', 'keypos'):
+        targets = [op['at'] % n] if n and -n <= op['at'] < n else None
+    else:
+        labs = [lc.canon(j) for j in lc.span_labels(case['span'])]
+        targets = [labs.index(lc.canon(op['at']))] if lc.canon(op['at']) in labs else None
+    if targets is None:
+        return
+    if obs['out'][0] == 'raise':
+        if obs['ref'][0] == 'ret':
+            bad('typed', 'write-rejected', 'writing %r raised %s although NumPy casts it to %s' % (op['v'], obs['out'][1], obs['ref'][1]))
+        elif stored != obs['before']:
+            bad('typed', 'changed-on-error', 'the rejected write changed the series')
+        return
+    if obs['ref'][0] == 'ret':
+        exp = list(obs['before'])
+        for p in targets:
+            exp[p] = obs['ref'][1]
+        if stored != exp:
+            bad('typed', 'wrong-periods-written', 'after writing %r the series is %s, expected %s' % (op['v'], stored, exp))
+
+
 def impl(case):
     import numpy as np
+    if case['op']['kind'] == 'typed':
+        return impl_typed(case)
     span, c = _make(case)
     n = len(span)
     op = case['op']
@@ -146,8 +233,13 @@ def impl(case):
     x_before = c.__dict__['_X']
 
     def book():
-        d = c.__dict__
-        return [list(d['index']), [str(x) for x in d['_attributes']], repr(d['_strict']), [lc.enc_label(p) for p in d['span']]]
+        # public observables only (no private layout): variable names, strict flag, span labels, and what dir() makes of the
+        # object's registry of attributes (a corrupted registry shows as another listing or as an exception)
+        try:
+            listing = sorted(x for x in dir(c) if not x.startswith('_'))
+        except Exception as e:
+            listing = type(e).__name__
+        return [list(c.index), bool(c.strict), [lc.enc_label(p) for p in c.span], listing]
     book_before = book()
     if kind in ('getn', 'setn'):
         if kind == 'getn':
@@ -336,6 +428,8 @@ def correspond(cases, obs, tag, tier):
         if o.get('timeout'):
             bad.append(i)
             continue
+        if c['op']['kind'] == 'typed':
+            continue                  # oracle-only: the model does not cast
         if not o['span_ok'] or pd_spec_broken(c, o):
             bad.append(i)
             continue
@@ -411,13 +505,16 @@ def oracle(case, obs):
     t = sp['type']
 
     def bad(site, cls, what):
-        if t == 'nparr' and any(j[0] == 'p' for j in _key_labels(case)) and (cls.startswith('absent-label-') or cls == 'wrong-periods-written'):
+        if t == 'nparr' and lc.span_len(sp) in (1, 2) and any(j[0] == 'p' for j in _key_labels(case)) and (cls.startswith('absent-label-') or cls == 'wrong-periods-written'):
             # kept finding: a tuple label is broadcast against a NumPy-array span by the fallback lookup (the absent label
             # aliases a period, or raises IndexError / ValueError instead of KeyError; a write through it lands on that period)
             site, cls = '_locate_period_in_span_fallback(ndarray span, tuple label)', 'broadcast-instead-of-KeyError'
         fails.append({'sig': 'C10|%s|%s' % (site, cls), 'what': what})
     if obs.get('timeout'):
         bad('any', 'timeout', 'no answer within the watchdog limit')
+        return fails
+    if case['op']['kind'] == 'typed':
+        oracle_typed(case, obs, bad)
         return fails
     labs = [lc.canon(j) for j in lc.span_labels(sp)]
     n = len(labs)
@@ -461,7 +558,7 @@ def oracle(case, obs):
     exp_after = data
     site = kind
     if not obs.get('book_ok', True):
-        bad(kind, 'bookkeeping-changed', 'the access changed the container\'s own bookkeeping (index / _attributes / _strict / span)')
+        bad(kind, 'bookkeeping-changed', 'the access changed the container\'s own bookkeeping (variable names / strict flag / span / dir() listing)')
     if kind in ('getn', 'setn'):
         # a name that is no variable: KeyError before anything is located or written, whatever the key
         if out != ['raise', 'KeyError']:
@@ -593,14 +690,16 @@ def _bt_label(sp, labs, text):
 
 def guard(case, obs):
     """Guard class of the kept finding (a tuple label looked up in a NumPy-array span is broadcast against it)."""
-    if case['span']['type'] != 'nparr':
-        return False
+    if case['span']['type'] != 'nparr' or lc.span_len(case['span']) not in (1, 2):
+        return False          # only spans of length 1 or 2 broadcast a tuple label; longer (and empty) spans answer KeyError as the spec wants
     return any(j is not None and j[0] == 'p' for j in _key_labels(case))
 
 
 def nontrivial(case, obs):
     if lc.span_len(case['span']) < 2:
         return False
+    if case['op']['kind'] == 'typed':
+        return True
     out = obs['out']
     if out[0] == 'raise':
         return True
@@ -667,6 +766,7 @@ def span_specs(nmax, monthly=False):
     specs.append({'type': 'range', 'start': -1, 'step': 1, 'n': 3})
     specs.append({'type': 'nparr', 'labels': [['i', 0], ['i', 1], ['i', 2]]})
     specs.append({'type': 'pdindex', 'labels': [['i', 2], ['i', 1], ['i', 0]]})
+    specs.append({'type': 'pdindex', 'labels': [['i', 9], ['i', 5], ['i', 7], ['i', 6]]})          # unique, not monotonic
     specs.append({'type': 'list', 'labels': [['f', 1.5], ['f', 0.0], ['i', 3]]})
     return specs
 
@@ -711,7 +811,7 @@ def cases_for_span(spec, cls, rng, level):
     n = lc.span_len(spec)
     labs = lc.span_labels(spec)
     absent = absent_labels(spec)
-    pair = [['p', 5, 6], ['p', 2, 5]] if spec['type'] in ('nparr', 'list', 'pdindex') and n <= 3 else []
+    pair = [['p', 5, 6], ['p', 2, 5]] if spec['type'] in ('nparr', 'list', 'pdindex', 'period', 'datetime') and n <= 3 else []          # (a tuple makes Period / Datetime indexes raise InvalidIndexError: must surface as KeyError)
     universe = [j for j in labs if j != ['none']] + absent[:2]
     out = []
 
@@ -822,6 +922,22 @@ def history_cases():
     return out
 
 
+def typed_cases():
+    """series of other dtypes; values of the dtype and values NumPy has to cast (2.5 into int64, 'abc' into <U2, 7 into bool, ...)"""
+    out = []
+    spans = [{'type': 'range', 'start': 2000, 'step': 1, 'n': 3}, {'type': 'list', 'labels': [['s', 'a'], ['s', 'b'], ['s', 'c']]},
+             {'type': 'nparr', 'labels': [['i', 5], ['i', 6], ['i', 7]]}, {'type': 'period', 'freq': 'Q', 'start': PER_Q0, 'n': 3}]
+    values = {'int': [7, -3, 2.5, -0.5, True, '12', 'abc', 2 ** 40], 'str': ['zz', 'z', 'abc', '', 12, 2.5, True], 'bool': [False, True, 0, 7, 0.0, 'x', ''],
+              'f32': [2.5, 0.1, 7, True, '3.5', 1e40]}
+    for spec in spans:
+        labs = lc.span_labels(spec)
+        for dt, vs in values.items():
+            for v in vs:
+                for path, at in (('label', labs[1]), ('slice', labs[2]), ('pos', -1), ('keypos', 0), ('whole', None), ('label', labs[0])):
+                    out.append({'span': spec, 'cls': 'VC', 'op': {'kind': 'typed', 'dtype': dt, 'path': path, 'at': at, 'v': v}})
+    return out
+
+
 def history_cases2():
     """histories on ONE object: (1) lookups on span0, span reassigned to a span of the same length (shifted window, reversed, other
     type), then the access; (2) a successful slice read, then reads with a missing end point, then the access"""
@@ -872,11 +988,24 @@ def history_cases2():
 
 def gen(rng, tier):
     nvc, nbm = (6, 3) if tier == 'quick' else (9, 7)
-    cases = history_cases() + history_cases2()
+    cases = history_cases() + history_cases2() + typed_cases()
     for spec in span_specs(nvc, monthly=tier != 'quick'):
         cases += cases_for_span(spec, 'VC', rng, 1 if tier == 'quick' else 2)
     for spec in span_specs(nbm):
         cases += cases_for_span(spec, 'BM', rng, 0 if tier == 'quick' else 2)
     for spec in dup_specs():
         cases += cases_for_span(spec, 'VC', rng, 1)
+    # the same accessors reached through mixin subclasses (aliases, pandas reindex mixin)
+    for spec in ({'type': 'range', 'start': 2000, 'step': 1, 'n': 3}, {'type': 'list', 'labels': [['s', x] for x in 'abc']},
+                 {'type': 'nparr', 'labels': [['i', 5 + i] for i in range(3)]}, {'type': 'period', 'freq': 'Q', 'start': PER_Q0, 'n': 3}):
+        for cls in ('BMA', 'BMP'):
+            cases += cases_for_span(spec, cls, rng, 0)
+    if tier != 'quick':
+        # longer spans (nothing may depend on the span being short)
+        longs = [{'type': 'range', 'start': 1990, 'step': 1, 'n': 12}, {'type': 'range', 'start': 1950, 'step': 2, 'n': 40},
+                 {'type': 'list', 'labels': [['s', 'p%02d' % i] for i in range(12)]}, {'type': 'nparr', 'labels': [['i', 100 - 3 * i] for i in range(12)]},
+                 {'type': 'pdindex', 'labels': [['i', (7 * i) % 29] for i in range(12)]}, {'type': 'period', 'freq': 'Q', 'start': PER_Q0, 'n': 12},
+                 {'type': 'datetime', 'freq': 'D', 'start': TS_D0, 'n': 12}]
+        for spec in longs:
+            cases += cases_for_span(spec, 'VC', rng, 0)
     return cases
